@@ -4,7 +4,7 @@
    `Inv`, `ops_wf`, `trace` are defined in Proofs/C10Inv.v / C10Bits.v; the first theorems
    below say exactly what they mean. *)
 From Coq Require Import ZArith List Bool Permutation Sorted.
-From DV Require Import Model.PyPrims Model.C10Model Proofs.C10Proofs.
+From DV Require Import Model.PyPrims Model.C10Model Model.C10ModelExt Proofs.C10Proofs Proofs.C10Ext Proofs.C10ExtEx.
 Import ListNotations.
 Open Scope Z_scope.
 
@@ -351,3 +351,178 @@ Theorem discard_label_spec :
           /\ w_lab w' = w_lab w /\ w_next w' = w_next w).
 Proof. exact discard_label_spec_l. Qed.
 Print Assumptions discard_label_spec.
+
+(* ================= 7. second wave: further renderings and read-only operations =================
+   (Model/C10ModelExt.v: xstep extends step; a bit string is a list bool, most significant digit
+   first, '1' = true; List.rev s reads it from the right) *)
+
+(* int_as_bitstring: position k from the right is '1' iff bit k of the number is set, for every
+   non-negative number and every requested length *)
+Theorem int_as_bitstring_positions : forall (m len : Z) (k : nat), 0 <= m ->
+  nth k (List.rev (int_as_bitstring m len)) false = Z.testbit m (Z.of_nat k).
+Proof. exact int_as_bitstring_nth_l. Qed.
+Print Assumptions int_as_bitstring_positions.
+
+(* bitmask_as_bitstring / split_as_string: position k from the right is '1' iff bit k is set, so a
+   member is marked iff its bit is set; the width is the accession count when the mask only uses
+   allocated bits, larger when it has a bit nobody was ever given; '0' for the empty namespace *)
+Theorem bitstring_names_exactly : forall (n : ns) (m : Z), Inv n -> 0 <= m ->
+  let s := bitmask_as_bitstring n m in
+  (forall k : nat, nth k (List.rev s) false = Z.testbit m (Z.of_nat k))
+  /\ (forall t i, alookup t (acc n) = Some i -> nth (Z.to_nat i) (List.rev s) false = Z.testbit m i)
+  /\ (1 <= count n -> m < 2 ^ count n -> Z.of_nat (length s) = count n)
+  /\ (2 ^ count n <= m -> count n < Z.of_nat (length s))
+  /\ (count n = 0 -> m = 0 -> s = [false]).
+Proof. exact bitstring_names_exactly_l. Qed.
+Print Assumptions bitstring_names_exactly.
+
+(* rendering the bitmask of a list of members: '1' exactly at the positions of their indices (the
+   position of a vacated index is therefore '0'), width = accession count *)
+Theorem bitstring_of_taxa_bitmask : forall (n : ns) (S : list tid), Inv n -> incl S (taxa n) ->
+  exists n' b, taxa_bitmask n S 0 = Ok (n', b)
+    /\ (forall k : nat, nth k (List.rev (bitmask_as_bitstring n' b)) false = true
+                        <-> exists t, In t S /\ alookup t (acc n) = Some (Z.of_nat k))
+    /\ (1 <= count n -> Z.of_nat (length (bitmask_as_bitstring n' b)) = count n).
+Proof. exact bitstring_of_taxa_bitmask_l. Qed.
+Print Assumptions bitstring_of_taxa_bitmask.
+
+(* label_taxon_map (dict or CaseInsensitiveDict by the namespace's / the call's case setting):
+   looking a label up gives the LAST member whose label matches (lookup_all = what findall returns);
+   every entry is a member under its own label; one entry per distinct key *)
+Theorem label_taxon_map_spec : forall (lower : lbl -> lbl) (w : world) (cs : option bool),
+  let c := use_cs (w_ns w) cs in
+  let d := label_taxon_map lower w cs in
+  xstep lower w (XLabelMap cs) = (w, YMap d)
+  /\ (forall l, dict_get (key_fn lower c) l d = hd_error (List.rev (lookup_all lower w l cs)))
+  /\ (forall k t, In (k, t) d -> In t (taxa (w_ns w)) /\ label_of w t = k)
+  /\ NoDup (map (fun e => key_fn lower c (fst e)) d).
+Proof. exact label_taxon_map_spec_l. Qed.
+Print Assumptions label_taxon_map_spec.
+
+(* taxa_bitmask(labels=...) / get_taxa_bitmask: never an error; bit k is set iff some listed label
+   selects (first match | any match, under the case setting) a member with index k *)
+Theorem taxa_bitmask_labels_names_exactly :
+  forall (lower : lbl -> lbl) (w : world) (ls : list lbl) (cs : option bool) (first : bool),
+  Inv (w_ns w) ->
+  exists n' b, xstep lower w (XTaxaBitmaskLabels ls cs first) = (set_ns w n', YBase (OInt b))
+    /\ (taxa n' = taxa (w_ns w) /\ acc n' = acc (w_ns w) /\ rev n' = rev (w_ns w)
+        /\ count n' = count (w_ns w) /\ is_mut n' = is_mut (w_ns w) /\ is_cs n' = is_cs (w_ns w))
+    /\ Inv n' /\ 0 <= b
+    /\ forall k, 0 <= k ->
+         (Z.testbit b k = true <->
+          exists l t, In l ls
+            /\ (if first then lookup_first lower w l cs = Some t else In t (lookup_all lower w l cs))
+            /\ alookup t (acc (w_ns w)) = Some k).
+Proof. exact taxa_bitmask_labels_names_exactly_l. Qed.
+Print Assumptions taxa_bitmask_labels_names_exactly.
+
+(* taxa_bipartition(taxa=S) on a namespace that has handed out at least one index: the leafset
+   bitmask has exactly the bits of S; the tree leafset bitmask is all_taxa_bitmask; the split bitmask
+   is the leafset bitmask when rooted or when bit 0 is clear, otherwise its complement within
+   all_taxa_bitmask - which sets EVERY other allocated bit, vacated ones included *)
+Theorem taxa_bipartition_names_exactly :
+  forall (lower : lbl -> lbl) (w : world) (S : list tid) (rooted : option bool),
+  Inv (w_ns w) -> incl S (taxa (w_ns w)) -> 1 <= count (w_ns w) ->
+  exists n' split leaf,
+    xstep lower w (XBipartition S rooted) = (set_ns w n', YBip split leaf (all_taxa_bitmask (w_ns w)))
+    /\ (taxa n' = taxa (w_ns w) /\ acc n' = acc (w_ns w) /\ rev n' = rev (w_ns w)
+        /\ count n' = count (w_ns w) /\ is_mut n' = is_mut (w_ns w) /\ is_cs n' = is_cs (w_ns w))
+    /\ Inv n'
+    /\ 0 <= leaf
+    /\ (forall k, 0 <= k -> (Z.testbit leaf k = true <-> exists t, In t S /\ alookup t (acc (w_ns w)) = Some k))
+    /\ ((rooted = Some true \/ Z.testbit leaf 0 = false) -> split = leaf)
+    /\ (rooted <> Some true -> Z.testbit leaf 0 = true ->
+        forall k, 0 <= k -> Z.testbit split k = Z.ltb k (count (w_ns w)) && negb (Z.testbit leaf k)).
+Proof. exact taxa_bipartition_names_exactly_l. Qed.
+Print Assumptions taxa_bipartition_names_exactly.
+
+(* the two argument shapes on which taxa_bipartition raises TypeError instead (as observed on the
+   implementation): labels= together with is_rooted=, and an unrooted bipartition of a namespace that
+   never had a member *)
+Theorem taxa_bipartition_errors : forall (lower : lbl -> lbl) (w : world),
+  (forall ls b, xstep lower w (XBipartitionLabels ls (Some b)) = (w, YBase (OErr TypeErr)))
+  /\ (count (w_ns w) = 0 -> forall rooted, rooted <> Some true ->
+        xstep lower w (XBipartition [] rooted) = (set_ns w (w_ns w), YBase (OErr TypeErr))).
+Proof. exact taxa_bipartition_errors_l. Qed.
+Print Assumptions taxa_bipartition_errors.
+
+(* container protocol *)
+Theorem contains_spec : forall (lower : lbl -> lbl) (w : world) (t : tid), Inv (w_ns w) ->
+  exists b, xstep lower w (XContains t) = (w, YBase (OBool b)) /\ (b = true <-> In t (taxa (w_ns w))).
+Proof. exact contains_spec_l. Qed.
+Print Assumptions contains_spec.
+
+Theorem getitem_spec : forall (lower : lbl -> lbl) (w : world) (i : Z),
+  let l := taxa (w_ns w) in let len := Z.of_nat (length l) in
+  (0 <= i < len -> exists t, xstep lower w (XGetItem i) = (w, YBase (OTax (Some t)))
+                             /\ nth_error l (Z.to_nat i) = Some t /\ In t l)
+  /\ (- len <= i < 0 -> exists t, xstep lower w (XGetItem i) = (w, YBase (OTax (Some t)))
+                             /\ nth_error l (Z.to_nat (len + i)) = Some t /\ In t l)
+  /\ ((i < - len \/ len <= i) -> xstep lower w (XGetItem i) = (w, YBase (OErr IndexErr))).
+Proof. exact getitem_spec_l. Qed.
+Print Assumptions getitem_spec.
+
+Theorem getslice_spec : forall (lower : lbl -> lbl) (w : world) (a b : option Z),
+  exists pre post, xstep lower w (XGetSlice a b) = (w, YBase (OTaxa (py_slice (taxa (w_ns w)) a b)))
+    /\ taxa (w_ns w) = pre ++ py_slice (taxa (w_ns w)) a b ++ post.
+Proof. exact getslice_spec_l. Qed.
+Print Assumptions getslice_spec.
+
+(* ns["label"] names nothing (ValueError); labels() = the members' labels in membership order *)
+Theorem getitem_label_and_labels : forall (lower : lbl -> lbl) (w : world),
+  (forall l, xstep lower w (XGetItemLabel l) = (w, YBase (OErr ValueErr)))
+  /\ xstep lower w XLabels = (w, YBase (OGroup1 (map (label_of w) (taxa (w_ns w))))).
+Proof. exact getitem_label_and_labels_l. Qed.
+Print Assumptions getitem_label_and_labels.
+
+(* none of the second-wave operations changes members, indices, counter, flags, labels *)
+Theorem xstep_readonly : forall (lower : lbl -> lbl) (w : world) (o : xop), Inv (w_ns w) ->
+  (forall o0, o <> XBase o0) ->
+  (taxa (w_ns (fst (xstep lower w o))) = taxa (w_ns w) /\ acc (w_ns (fst (xstep lower w o))) = acc (w_ns w)
+   /\ rev (w_ns (fst (xstep lower w o))) = rev (w_ns w) /\ count (w_ns (fst (xstep lower w o))) = count (w_ns w)
+   /\ is_mut (w_ns (fst (xstep lower w o))) = is_mut (w_ns w) /\ is_cs (w_ns (fst (xstep lower w o))) = is_cs (w_ns w))
+  /\ Inv (w_ns (fst (xstep lower w o)))
+  /\ w_lab (fst (xstep lower w o)) = w_lab w /\ w_next (fst (xstep lower w o)) = w_next w.
+Proof. exact xstep_readonly_l. Qed.
+Print Assumptions xstep_readonly.
+
+Theorem xops_inv : forall (lower : lbl -> lbl) (w : world) (ops : list xop),
+  Inv (w_ns w) -> Inv (w_ns (xrun_world lower w ops)).
+Proof. exact xops_inv_l. Qed.
+Print Assumptions xops_inv.
+
+(* ================= 8. immutability, operation by operation ================= *)
+
+(* is_mutable=False is consulted by exactly the four adding operations, and they leave the world
+   untouched: TypeError - except add_taxon of a member (silent no-op) and require_taxon of a present
+   label (returns the first match).  Every other operation (remove*, discard*, clear, sort, reverse,
+   relabel, ...) behaves as on a mutable namespace: see immutable_never_grows, which quantifies over
+   ALL operations, and Example ex_immutable_shrinks *)
+Theorem immutable_adders : forall (lower : lbl -> lbl) (w : world), is_mut (w_ns w) = false ->
+  (forall l, step lower w (NewTaxon l) = (w, OErr TypeErr))
+  /\ (forall ls, step lower w (NewTaxa ls) = (w, OErr TypeErr))
+  /\ (forall t, alookup t (acc (w_ns w)) = None -> step lower w (AddTaxon t) = (w, OErr TypeErr))
+  /\ (forall t i, alookup t (acc (w_ns w)) = Some i -> step lower w (AddTaxon t) = (set_ns w (w_ns w), OUnit))
+  /\ (forall l cs, lookup_all lower w l cs = [] -> step lower w (RequireTaxon l cs) = (w, OErr TypeErr))
+  /\ (forall l cs t r, lookup_all lower w l cs = t :: r -> step lower w (RequireTaxon l cs) = (w, OTax (Some t))).
+Proof. exact immutable_adders_l. Qed.
+Print Assumptions immutable_adders.
+
+Theorem immutable_never_grows_x : forall (lower : lbl -> lbl) (w : world) (o : xop),
+  Inv (w_ns w) -> is_mut (w_ns w) = false ->
+  (forall b, o <> XBase (SetMutable b)) -> o <> XBase DeepCopy ->
+  incl (taxa (w_ns (fst (xstep lower w o)))) (taxa (w_ns w))
+  /\ is_mut (w_ns (fst (xstep lower w o))) = false.
+Proof. exact immutable_never_grows_x_l. Qed.
+Print Assumptions immutable_never_grows_x.
+
+(* bitprocessing.bit_length (hand-modelled, tied by a direct differential check): 0 for 0, the index of
+   the highest set bit + 1 otherwise, sign ignored; the width of int_as_bitstring(n, len) is
+   max(len, 1, bit_length n): rjust pads, never truncates *)
+Theorem bit_length_spec : forall n : Z,
+  (n = 0 -> bit_length n = 0)
+  /\ (0 < n -> bit_length n = Z.log2 n + 1)
+  /\ bit_length (- n) = bit_length n
+  /\ (0 <= n -> forall len, Z.of_nat (length (int_as_bitstring n len)) = Z.max len (Z.max 1 (bit_length n))).
+Proof. exact bit_length_spec_l. Qed.
+Print Assumptions bit_length_spec.
